@@ -440,7 +440,7 @@ const DOMAIN_POOL: &[&str] = &[
 
 fn random_domains(ctx: &mut Ctx) {
     let sub = "domains";
-    let cases = ctx.n(20_000, 400_000);
+    let cases = ctx.n(20_000, 3_000_000);
     for idx in 0..cases {
         if ctx.stop() {
             break;
